@@ -25,24 +25,23 @@ for i in range(1, 21):
     for r in res.rules:
         for f in getattr(r, "instance_funcs", []):
             fns[f.qualname] = f
-    # callers: functions in the property's anchor files that call a function of the core scope (one level)
-    import json as _json
+    # callees: functions of the property's anchor files that the core functions call (two levels) -- the core
+    # depends on them.  (Callers are NOT added: a caller in an anchor file need not be part of this property.)
     from menpolint.calls import CallCtx
     from menpolint.astutil import calls_in
     files = set(PROPS[pid]["anchors"]["files"])
     for _level in range(2):
-        core = set(fns)
-        for f in project.all_functions():
-            if f.module.relpath not in files or f.qualname in fns:
-                continue
+        for f in list(fns.values()):
             ctx = CallCtx(project, f, f.cls)
-            hit = False
             for k in calls_in(f.node, include_nested=True):
                 for t in ctx.resolve_call(k):
-                    if t.func.qualname in core:
-                        hit = True
-            if hit:
-                fns[f.qualname] = f
+                    if t.func.module.relpath in files and t.func.qualname not in fns:
+                        fns[t.func.qualname] = t.func
+    index = {f.qualname: f for f in project.all_functions()}
+    for q in getattr(mod, "EXTRA_SCOPE", []):
+        if q not in index:
+            raise SystemExit("EXTRA_SCOPE of %s names unknown function %s" % (pid, q))
+        fns[q] = index[q]
     per = {}
     for q, fi in sorted(fns.items()):
         used = check.params_read(fi.node)
